@@ -9,15 +9,15 @@ git -C /repo worktree add -q --detach $WT HEAD || exit 2
 trap 'git -C /repo worktree remove --force '$WT' 2>/dev/null; rm -rf /tmp/mutout-'$$ EXIT
 checks_for() {
   case $1 in
-    joe.go) echo "C07 C06 C17 C03 C04 C19 C05" ;;
-    replay.go) echo "C08 C19 C18 C04 C09 C05" ;;
-    client.go) echo "C11 C10 C12 C05" ;;
-    client_connection.go) echo "C10 C11 C13 C20 C12 C05" ;;
+    joe.go) echo "C07 C06 C17 C03 C04" ;;
+    replay.go) echo "C08 C19 C18 C04 C09" ;;
+    client.go) echo "C11 C10 C12" ;;
+    client_connection.go) echo "C10 C11 C13 C20 C12" ;;
     event.go) echo "C10 C11 C20 C02 C01 C13" ;;
     message.go) echo "C14 C15 C19 C02" ;;
     message_fields.go) echo "C14 C15 C02" ;;
     session.go) echo "C16 C14" ;;
-    server.go) echo "C16 C05" ;;
+    server.go) echo "C16" ;;
     internal/parser/*) echo "C14 C20 C11 C15 C02 C01" ;;
   esac
 }
